@@ -31,7 +31,7 @@ ASSUMPTIONS = ['policy table written from functions.md: not converted = artifact
                'modules, constructors, builtins, native or source-less/exec functions, generator functions, lru_cache wrappers, '
                'callees in non-recursive mode; everything else converted',
                'faults are Exceptions (not BaseExceptions) raised at stage entry or at a LINE event']
-MIN_JUDGED = {'quick': 600, 'thorough': 2500}
+MIN_JUDGED = {'quick': 600, 'thorough': 2000}
 SLICE_TIMEOUT = {'quick': 1500, 'thorough': 7200}
 
 TARGETS = '''\
@@ -162,6 +162,16 @@ def kinds(m, api, malt):
       ('artifact_to_graph', malt.to_graph(m.inner), (1,), {}, {'inner'}),   # already converted: runs converted code as is
       ('do_not_convert', api.do_not_convert(m.outer), (1,), {}, set()),
       ('raising_target', m.failing, (1,), {}, {'failing'}),
+      # native callables that merely share their name with a builtin that has an overload
+      ('c_method_named_max', __import__('decimal').Decimal('1.5').max, (__import__('decimal').Decimal('2'),), {}, set()),
+      ('c_unbound_method_named_min', __import__('decimal').Decimal.min,
+       (__import__('decimal').Decimal('1'), __import__('decimal').Decimal('3')), {}, set()),
+      ('operator_abs', __import__('operator').abs, (-3,), {}, set()),
+      ('deque_method_named_len_like', __import__('collections').deque([1, 2]).count, (1,), {}, set()),
+      ('ndarray_any', __import__('numpy').array([0, 1]).any, (), {}, set()),
+      ('ndarray_max_kw', __import__('numpy').array([[1, 5], [7, 2]]).max, (), {'axis': 0}, set()),
+      ('str_method_named_like_builtin', 'a-b'.format, (), {}, set()),
+      ('dict_method_filter_like', {'k': 1}.get, ('k',), {}, set()),
   ]
 
 
@@ -579,7 +589,7 @@ def plan(tier, seed):
 def run_slice(spec):
   if spec['kind'] == 'transparency':
     combos = []
-    nk = 30
+    nk = 38
     for ki in range(nk):
       for rec in (True, False):
         for ur in (True, False):
